@@ -616,6 +616,62 @@ async def replay_d8():
     return out
 
 
+async def replay_d36():
+    """Witness of C10_validate_without_defer_refuted on the real Workflow + Scheduler.
+
+    plan (SUCCEEDED) declares a.txt and defines S; S runs, amends a.txt and succeeds (stored hash).
+    a.txt is deleted: S becomes PENDING, its dynamic input is MISSING, so its next job is a
+    ValidateDynamicJob (state CHECKING).  With the pre-d760e3e outcome `set_state(PENDING)` the scheduler
+    hands out the same validation job again; with the outcome of the repository's executor it does not."""
+    from stepup.core.enums import HashUpdateCause
+    from stepup.core.hash import FileHash
+    from stepup.core.job import ValidateDynamicJob
+    from stepup.core.step import Step
+    from .sched_common import _fh, _step_hash, _validate_unchanged_outcome
+    from .wfutil import WF
+
+    def kind(job):
+        if job is None:
+            return None
+        return "validate" if isinstance(job, ValidateDynamicJob) else ("run" if job.step_hash is None else "check")
+
+    out = {}
+    async with WF() as w:
+        wf, sched, db = w.wf, w.sched, w.db
+        async with db:
+            w.confirm_static(w.plan, ["a.txt"])
+            wf.define_step(w.plan, "S")
+            S = wf.find(Step, "S")
+            w.plan.mark_completed(_step_hash("./plan.py"), False)
+        job = await sched.pop_next_job()
+        assert job is not None and job.step.label == "S", job
+        async with db:
+            S.reset_for_rerun()
+        async with db:
+            wf.amend_step(S, inp_paths=["a.txt"], ran_concurrently=sched.ran_concurrently)
+        async with db:
+            S.mark_completed(_step_hash("S"), False)
+        assert await sched.pop_next_job() is None
+        async with db:
+            wf.update_file_hashes({"a.txt": FileHash.unknown()}, cause=HashUpdateCause.EXTERNAL)
+        job = await sched.pop_next_job()
+        out["first"] = kind(job)
+        # the outcome before d760e3e
+        async with db:
+            S.set_state(StepState.PENDING)
+        job = await sched.pop_next_job()
+        out["prefix_outcome_next"] = kind(job)
+        # the outcome of the repository's executor
+        state_name, deferred = _validate_unchanged_outcome()
+        out["repo_outcome"] = [state_name, deferred]
+        async with db:
+            S.set_state(StepState[state_name], deferred)
+        job = await sched.pop_next_job()
+        out["repo_outcome_next"] = kind(job)
+        out["after"] = await _snap(w)
+    return out
+
+
 async def replay_d11():
     """Witness of C10_update_meta_refuted_for_min_merge on the real Workflow + Scheduler.
 
